@@ -35,6 +35,10 @@ var npAliases map[types.Object]ast.Expr
 // npFlags: boolean locals that start false and are only ever set to true: the facts that hold wherever they are set.
 var npFlags map[types.Object][]nilFact
 
+// npBools: boolean locals defined exactly once from a non-constant expression (`isNamed := dimension.Name != nil`):
+// testing the local is testing that expression.
+var npBools map[types.Object]ast.Expr
+
 func exprKey(info *types.Info, e ast.Expr) string {
 	switch x := ast.Unparen(e).(type) {
 	case *ast.Ident:
@@ -95,6 +99,9 @@ func (na *nilAnalyzer) condFacts(info *types.Info, cond ast.Expr, pol bool, dept
 			if fs, ok := npFlags[info.ObjectOf(x)]; ok {
 				return fs
 			}
+		}
+		if rhs, ok := npBools[info.ObjectOf(x)]; ok && depth <= 3 {
+			return na.condFacts(info, rhs, pol, depth+1)
 		}
 	case *ast.UnaryExpr:
 		if x.Op == token.NOT {
@@ -405,6 +412,34 @@ func (na *nilAnalyzer) earlierSiblings(info *types.Info, list []ast.Stmt, child 
 			} else if x.Else != nil && stmtLeaves(x.Else) && !stmtLeaves(x.Body) {
 				facts = append(facts, na.condFacts(info, x.Cond, true, 0)...)
 			}
+		case *ast.SwitchStmt:
+			// a tagless switch whose clauses all leave: behind it none of the conditions held
+			if x.Tag == nil {
+				for _, cl := range x.Body.List {
+					cc := cl.(*ast.CaseClause)
+					if cc.List == nil || len(cc.Body) == 0 || !stmtLeaves(cc.Body[len(cc.Body)-1]) {
+						continue
+					}
+					// the clause leaves: if control is behind the switch, this clause was not taken; that means its
+					// condition was false only when no earlier clause could have shadowed it — earlier clauses that
+					// also leave do not matter, a non-leaving earlier clause makes the fact unsound
+					sound := true
+					for _, prev := range x.Body.List {
+						pc := prev.(*ast.CaseClause)
+						if pc == cc {
+							break
+						}
+						if pc.List != nil && (len(pc.Body) == 0 || !stmtLeaves(pc.Body[len(pc.Body)-1])) {
+							sound = false
+						}
+					}
+					if sound {
+						for _, e := range cc.List {
+							facts = append(facts, na.condFacts(info, e, false, 0)...)
+						}
+					}
+				}
+			}
 		case *ast.AssignStmt:
 			for i, l := range x.Lhs {
 				if i >= len(x.Rhs) {
@@ -475,10 +510,14 @@ func ruleOptionalDeref(fileScope func(string) bool, ruleID string, min int) func
 			elemOf := map[types.Object]string{}
 			ast.Inspect(d.Body, func(n ast.Node) bool {
 				if rs, ok := n.(*ast.RangeStmt); ok {
-					if star, ok := ast.Unparen(rs.X).(*ast.StarExpr); ok {
+					rx := ast.Unparen(rs.X)
+					if sl, ok := rx.(*ast.SliceExpr); ok {
+						rx = sl.X // a part of the slice: still its elements
+					}
+					if sk := exprKey(info, rx); strings.HasPrefix(sk, "*") {
 						if id, ok := rs.Value.(*ast.Ident); ok {
 							if o := info.Defs[id]; o != nil {
-								elemOf[o] = exprKey(info, star.X)
+								elemOf[o] = sk[1:]
 							}
 						}
 					}
@@ -536,8 +575,8 @@ func ruleOptionalDeref(fileScope func(string) bool, ruleID string, min int) func
 					if id, ok := base.(*ast.Ident); ok {
 						sliceKey = elemOf[info.ObjectOf(id)]
 					} else if ix, ok := base.(*ast.IndexExpr); ok {
-						if st, ok := ast.Unparen(ix.X).(*ast.StarExpr); ok {
-							sliceKey = exprKey(info, st.X)
+						if sk := exprKey(info, ix.X); strings.HasPrefix(sk, "*") {
+							sliceKey = sk[1:]
 						}
 					}
 					if sliceKey != "" {
@@ -546,6 +585,13 @@ func ruleOptionalDeref(fileScope func(string) bool, ruleID string, min int) func
 								okFact = "every element of the slice has the field (predicate)"
 							}
 						}
+					}
+				}
+				if okFact == "" {
+					// facts the callers establish: the dereferenced expression hangs off a parameter of an unexported
+					// function, and at EVERY call site of the module the corresponding fact holds for the argument
+					if why := na.callerFact(info, d, se); why != "" {
+						okFact = why
 					}
 				}
 				if okFact != "" {
@@ -567,6 +613,7 @@ var npExceptions = map[string]string{}
 func (na *nilAnalyzer) prepare(info *types.Info, d *ast.FuncDecl) {
 	npAliases = map[types.Object]ast.Expr{}
 	npFlags = map[types.Object][]nilFact{}
+	npBools = map[types.Object]ast.Expr{}
 	defs := map[types.Object][]ast.Expr{}
 	defStmt := map[types.Object][]ast.Stmt{}
 	ast.Inspect(d.Body, func(n ast.Node) bool {
@@ -614,6 +661,17 @@ func (na *nilAnalyzer) prepare(info *types.Info, d *ast.FuncDecl) {
 			switch ast.Unparen(ds[0]).(type) {
 			case *ast.SelectorExpr, *ast.IndexExpr:
 				npAliases[o] = ds[0]
+			case *ast.StarExpr:
+				// `dimensions := *array.Dimensions`: the local is the slice the field points to
+				if _, isSlice := o.Type().Underlying().(*types.Slice); isSlice {
+					npAliases[o] = ds[0]
+				}
+			case *ast.BinaryExpr, *ast.UnaryExpr, *ast.CallExpr:
+				if isBoolType(o.Type()) {
+					if tv, has := info.Types[ds[0]]; has && tv.Value == nil {
+						npBools[o] = ds[0]
+					}
+				}
 			}
 		}
 	}
@@ -702,4 +760,130 @@ func constructedNonNil(c *core.Ctx, info *types.Info, se *ast.SelectorExpr) bool
 		}
 	}
 	return lits > 0 && lits == good
+}
+
+
+// rootParam: the parameter of d that expression e hangs off (through selectors / index / deref / single-definition
+// aliases), with its position in the parameter list.
+func rootParam(info *types.Info, d *ast.FuncDecl, e ast.Expr) (types.Object, int) {
+	cur := ast.Unparen(e)
+	for depth := 0; depth < 8; depth++ {
+		switch x := cur.(type) {
+		case *ast.SelectorExpr:
+			cur = ast.Unparen(x.X)
+			continue
+		case *ast.IndexExpr:
+			cur = ast.Unparen(x.X)
+			continue
+		case *ast.StarExpr:
+			cur = ast.Unparen(x.X)
+			continue
+		case *ast.Ident:
+			o := info.ObjectOf(x)
+			for i, po := range paramObjs(info, d) {
+				if po != nil && po == o {
+					return o, i
+				}
+			}
+			if rhs, ok := npAliases[o]; ok {
+				cur = ast.Unparen(rhs)
+				continue
+			}
+			// `dims := *arr.Dimensions` style single definitions
+			var def ast.Expr
+			n := 0
+			ast.Inspect(d.Body, func(m ast.Node) bool {
+				if as, ok := m.(*ast.AssignStmt); ok && len(as.Lhs) == len(as.Rhs) {
+					for i, l := range as.Lhs {
+						if id, ok := ast.Unparen(l).(*ast.Ident); ok && info.ObjectOf(id) == o {
+							n++
+							def = as.Rhs[i]
+						}
+					}
+				}
+				return true
+			})
+			if n == 1 && def != nil {
+				cur = ast.Unparen(def)
+				continue
+			}
+		}
+		break
+	}
+	return nil, -1
+}
+
+// callerFact: every call site of d in the module establishes that `se` (rooted at a parameter) is non-nil.
+func (na *nilAnalyzer) callerFact(info *types.Info, d *ast.FuncDecl, se *ast.SelectorExpr) string {
+	if d.Name.IsExported() || d.Recv != nil {
+		return ""
+	}
+	po, pi := rootParam(info, d, se)
+	if po == nil {
+		return ""
+	}
+	me, _ := info.Defs[d.Name].(*types.Func)
+	if me == nil {
+		return ""
+	}
+	paramKey := exprKey(info, ast.NewIdent(po.Name()))
+	_ = paramKey
+	// the key of se relative to the parameter: textual suffix after the parameter's own key
+	full := exprKey(info, se)
+	base := fmt.Sprintf("%s@%d", po.Name(), po.Pos())
+	idx := strings.Index(full, base)
+	if idx < 0 {
+		return ""
+	}
+	prefix, suffix := full[:idx], full[idx+len(base):]
+	for _, od := range na.c.AllDecls() {
+		for _, r := range na.c.Refs(od) {
+			if r.Origin() == me {
+				return "" // used as a function value: not every caller is a call site
+			}
+		}
+	}
+	sites := 0
+	savedAliases, savedFlags, savedBools := npAliases, npFlags, npBools
+	defer func() { npAliases, npFlags, npBools = savedAliases, savedFlags, savedBools }()
+	for _, od := range na.c.AllDecls() {
+		if od.Body == nil || na.c.DeclPkg(od) == nil {
+			continue
+		}
+		for _, cs := range na.c.Calls(od) {
+			if cs.Callee == nil || cs.Callee.Origin() != me || pi >= len(cs.Call.Args) {
+				continue
+			}
+			sites++
+			oinfo := na.c.DeclPkg(od).TypesInfo
+			na.prepare(oinfo, od)
+			argKey := exprKey(oinfo, cs.Call.Args[pi])
+			if argKey == "" {
+				return ""
+			}
+			want := prefix + argKey + suffix
+			facts := na.factsAt(oinfo, od.Body, cs.Call)
+			nonNil := map[string]bool{}
+			for _, f := range facts {
+				if f.key != "" {
+					nonNil[f.key] = true
+				}
+			}
+			for _, f := range facts {
+				if f.eq != "" {
+					ab := strings.SplitN(f.eq, "|", 2)
+					if nonNil[ab[0]] || nonNil[ab[1]] {
+						nonNil[ab[0]], nonNil[ab[1]] = true, true
+					}
+				}
+			}
+			if !nonNil[want] {
+				return ""
+			}
+		}
+	}
+	if sites == 0 {
+		return ""
+	}
+	return fmt.Sprintf("established by the caller at every call site (%d)", sites)
 }
